@@ -161,6 +161,23 @@ type recStore struct {
 	cs    *busCase
 	sid   int
 	inner *eb.MemoryStore
+	kept  []keptEvent // the store keeps the *Event values it was handed (a write-behind store would): they must stay intact
+}
+
+type keptEvent struct {
+	ev   *eb.Event
+	ty   string
+	data string
+}
+
+// checkKept: what Append was handed is still what it was handed
+func (s *recStore) checkKept() {
+	for _, k := range s.kept {
+		if k.ev.Type != k.ty || string(k.ev.Data) != k.data {
+			s.cs.emit("!store-event-mutated the *Event handed to Append (type %q) reads type %q later on", k.ty, k.ev.Type)
+			return
+		}
+	}
 }
 
 func tyOfName(name string) int {
@@ -199,6 +216,7 @@ func depthOf(ctx context.Context) int {
 
 func (s *recStore) Append(ctx context.Context, e *eb.Event) (eb.Offset, error) {
 	cs := s.cs
+	s.kept = append(s.kept, keptEvent{e, e.Type, string(e.Data)})
 	var pl struct {
 		V int `json:"v"`
 	}
@@ -788,6 +806,9 @@ func busDomain(lines []string) []string {
 	if np > 0 {
 		cs.emit("!pending %d", np)
 		cs.drain() // do not leak parked goroutines into the next case
+	}
+	for _, st := range cs.stores {
+		st.checkKept()
 	}
 	if cs.otel != nil {
 		cs.bus.Wait()
